@@ -185,3 +185,31 @@ def fresh_generator_calls(f, g):
             if c.rsplit("::", 1)[-1] in FRESH_GENERATORS and (t.get("callee_trait") or "").startswith(("ark_ec", "ark_std", "ark_ff", "ark_poly")):
                 out.append((bid, i, t))
     return out
+
+
+_run_c09 = run
+
+
+def run(rep, ctx, tier):
+    _run_c09(rep, ctx, tier)
+    # R18 over everything the setups and trims call: generators, powers and bounds are handed around as same-typed
+    # arguments (usize, group elements), which the type system cannot tell apart
+    from ..rules import argswap
+    f = ctx.facts
+    roots = [b.id for b in f.bodies.values() if b.kind != "Closure" and b.name in ("setup", "trim")]
+    scope = sorted(f.closure(roots, None)) if roots else []
+    judged, out = argswap.swapped(f, scope)
+    rep.count("R18 calls judged", judged)
+    seen = set()
+    for (bid, t, i, j, names, callee) in out:
+        key = "crosswise:%s->%s:%s/%s" % (f.bodies[bid].name, callee.rsplit("::", 1)[-1], names[2], names[3])
+        if key in seen:
+            continue
+        seen.add(key)
+        rep.add("R18", key, False, "call of `%s` at %s passes `%s` for parameter `%s` and `%s` for parameter `%s` (same type, each "
+                "argument carries the other parameter's name): the key is built from the wrong quantities" % (
+                    callee.rsplit("::", 1)[-1], t.get("span"), names[0], names[2], names[1], names[3]), t.get("span"))
+    if not out:
+        rep.add("R18", "setup-trim:no-crosswise-arguments", bool(roots), "no two same-typed arguments are passed crosswise by name in "
+                "the %d calls judged under %d setup / trim entry points" % (judged, len(roots)) if roots else
+                "no setup / trim entry point found (fail closed)", None)
